@@ -98,6 +98,10 @@ def answerKw (V : Ver) (toks : List Tok) : String :=
     (match s, m with
      | none, .ok t => if (leavesX t).any (fun l => trigF04b V.rows V.impl V.ep (specParse V.w3c V.ep V.rows l.yield) l.yield) then ["F04b"] else []
      | some t, _ => if (leavesX t).any (trigF04d (V.n % 100) V.rows) then ["F04d"] else []
+     | _, _ => []) ++
+    -- F04r: a bare `?` after `(` / `,` is read as an argument placeholder (only when model and reference both reject)
+    (match s, m with
+     | none, .error _ => if EPV.Kw.placeholderAt T (idxOf V.rows "?") lp comma toks then ["F04r"] else []
      | _, _ => [])
   let rel := (match m with
     | .ok t => decide (t.yield = toks) && EPV.Kw.xwf false (gramOf V.impl V.ep (syms V.rows)) lp comma false t
